@@ -1,12 +1,10 @@
 CONSTANTS
   GC = FALSE
   NonTailIf = FALSE
-  Family = "derived-full"
-  MaxKont = 12
+  Family = "tail-fin-2"
+  MaxKont = 4
 SPECIFICATION Spec
-INVARIANT TickOnce
-INVARIANT NoError
 INVARIANT KontBounded
-INVARIANT SingleLaw
+INVARIANT TailResultLaw
 INVARIANT Emit
 CHECK_DEADLOCK FALSE
